@@ -14,6 +14,7 @@ NObs == p.nobs
 UseSaver == p.saver
 CacheBlocks == p.cache
 AllowStop == p.stop
+IsJoiner(o) == p.joiner = o            \* index of the observer that is an AudioEventsJoinerWorker (0: none)
 tokv == <<p, r, cur, stream, out, finished>>
 vars == <<p, r, cur, stream, out, finished, inbox, tpc, nidx, opc, processed, spc, cache, file, fclosed, mpc, midx>>
 Obs == 1..NObs
@@ -119,9 +120,19 @@ OBegin(o) == /\ opc[o] = "begin" /\ opc' = [opc EXCEPT ![o] = "get"]
 OGet(o) == /\ opc[o] = "get" /\ inbox[ON(o)] # <<>>
            /\ LET m == Head(inbox[ON(o)]) IN
               /\ inbox' = [inbox EXCEPT ![ON(o)] = Tail(@)]
-              /\ IF m = Stop THEN opc' = [opc EXCEPT ![o] = "done"] /\ processed' = processed
+              \* a joining observer (AudioEventsJoinerWorker) drains its inbox after the stop marker (_post_process), others end at once
+              /\ IF m = Stop THEN opc' = [opc EXCEPT ![o] = IF IsJoiner(o) THEN "drain" ELSE "done"] /\ processed' = processed
                  ELSE opc' = opc /\ processed' = [processed EXCEPT ![o] = Append(@, m.id)]
            /\ UNCHANGED <<tokv, tpc, nidx, spc, cache, file, fclosed, mpc, midx>>
+\* AudioEventsJoinerWorker._post_process (workers.py:412-421): get_nowait until empty; detections still queued are written, stop markers ignored
+ODrain(o) == /\ opc[o] = "drain"
+             /\ IF inbox[ON(o)] # <<>>
+                THEN LET m == Head(inbox[ON(o)]) IN
+                     /\ inbox' = [inbox EXCEPT ![ON(o)] = Tail(@)]
+                     /\ processed' = (IF m = Stop THEN processed ELSE [processed EXCEPT ![o] = Append(@, m.id)])
+                     /\ opc' = opc
+                ELSE opc' = [opc EXCEPT ![o] = "done"] /\ UNCHANGED <<inbox, processed>>
+             /\ UNCHANGED <<tokv, tpc, nidx, spc, cache, file, fclosed, mpc, midx>>
 OTimeout(o) == opc[o] = "get" /\ inbox[ON(o)] = <<>> /\ UNCHANGED vars
 
 (* ------------------------------ stream saver (writer thread) ------------------------------ *)
@@ -151,9 +162,10 @@ Finished == AllDone /\ UNCHANGED vars
 ObsBegin == \E o \in Obs : OBegin(o)
 ObsGet == \E o \in Obs : OGet(o)
 ObsTimeout == \E o \in Obs : OTimeout(o)
-Next == MainNext \/ MStopTok \/ TokNext \/ ObsBegin \/ ObsGet \/ ObsTimeout \/ SavNext \/ STimeout \/ Finished
+ObsDrain == \E o \in Obs : ODrain(o)
+Next == MainNext \/ MStopTok \/ TokNext \/ ObsBegin \/ ObsGet \/ ObsDrain \/ ObsTimeout \/ SavNext \/ STimeout \/ Finished
 Spec == Init /\ [][Next]_vars /\ WF_vars(MainNext) /\ WF_vars(TokNext)
-        /\ (\A o \in 1..MaxObs : WF_vars(OBegin(o) \/ OGet(o))) /\ WF_vars(SavNext)
+        /\ (\A o \in 1..MaxObs : WF_vars(OBegin(o) \/ OGet(o) \/ ODrain(o))) /\ WF_vars(SavNext)
 
 (* ------------------------------ properties ------------------------------ *)
 NRead == IF finished \/ tpc \in {"fwdstop"} THEN cur ELSE cur + 1
@@ -170,5 +182,5 @@ C14Safe == AllDone => (finished /\ out = Seg!SegOf(p, stream) /\ Len(stream) = N
 Termination == <>[]AllDone
 TypeOK == /\ tpc \in {"unstarted", "begin", "poll", "read", "fwd", "fwdstop", "notify", "stopobs", "stopsaver", "joinsaver", "done"}
           /\ spc \in {"unstarted", "begin", "get", "drain", "done"}
-          /\ \A o \in Obs : opc[o] \in {"unstarted", "begin", "get", "done"}
+          /\ \A o \in Obs : opc[o] \in {"unstarted", "begin", "get", "drain", "done"}
 =========================================================================
